@@ -35,20 +35,26 @@ def req_line(rnd, meth):
     for _ in range(rnd.choice([0, 0, 1, 2, 3])): cs[tok(rnd, 1, 5)] = tok(rnd, 1, 8)
     n = rnd.choice([0, 0, 1, 5, 100, 511, 512, 513, 4096, 5000])
     body = c05.body_of(rnd, n)
-    return 'rtreq %s %s %s %s %s %s' % (meth, hx(path), ','.join('%s:%s' % (hx(k), hx(v)) for k, v in q.items()) or '-',
+    line = 'rtreq %s %s %s %s %s %s' % (meth, hx(path), ','.join('%s:%s' % (hx(k), hx(v)) for k, v in q.items()) or '-',
                                         ','.join('%s=%s' % (n_, hx(v)) for n_, v in hs) or '-', ','.join('%s:%s' % (hx(k), hx(v)) for k, v in cs.items()) or '-', hx(body))
+    if cs and rnd.random() < .5:
+        # the Cookie objects handed to the client carry attributes (Path, Domain, Secure, HttpOnly, Max-Age, ext): a request sends name=value only
+        line += ' ' + ','.join(''.join(a for a in 'PDSHME' if rnd.random() < .35) or '.' for _ in cs)
+    return line
 
 def gen(tier, rnd):
     L = []
     ms = methods()
     for m in ms: L.append('rtreq %s %s - - - -' % (m, hx('/m')))
     for m in ms: L.append('rtreq %s %s - - - %s' % (m, hx('/m'), hx('body')))
+    L.append('rtreq Get %s - - %s:%s,%s:%s - PDSHME,S' % (hx('/c'), hx('sid'), hx('abc'), hx('lang'), hx('en')))
     N = 150 if tier == 'quick' else 2500
     for _ in range(N): L.append(req_line(rnd, rnd.choice(ms)))
     # responses: the generator of C05, read by the real client (fixed and streamed, within the cap)
     for l in c05.gen(tier, rnd):
         w = l.split()
         if int(w[1]) < (1 << 20) or w[2] == 'file': continue
+        if len(w[6]) > 2 * 20000 + 10: continue      # C05's very large streamed chunks (chunk-size digit boundaries) are beyond what the byte-level parser model is run on here
         L.append('rtresp ' + ' '.join(w[1:9]) + ' 0')
     return L
 
